@@ -200,8 +200,9 @@ impl Preferences{
 thread_local!{
     static DEFAULT_USER_PREFERENCES: Preferences = Preferences::user_defaults();
     static DEFAULT_API_PREFERENCES: Preferences = Preferences::api_defaults();
+    // the API preferences have their default values from the start: a set_preference can come before the first set_rules_dir
     static PREF_MANAGER: Rc<RefCell<PreferenceManager>> = 
-            Rc::new( RefCell::new( PreferenceManager::default() ) );
+            Rc::new( RefCell::new( PreferenceManager{ api_prefs: Preferences::api_defaults(), ..Default::default() } ) );
 
 }
 
